@@ -317,6 +317,51 @@ void field_op(Ctx& cx, View v, K k, Comp, Acc acc, Tag, std::size_t cdepth)
         using T = decltype(acc(v));
         switch(rq.sub)
         {
+        case SET_CHOICES:
+            if constexpr(K::value == K_SET)
+            {
+                // per choice four records: named getter, get_by_tag, raw value after toggling through the
+                // named setter, raw value after toggling through set_by_tag (each on a fresh copy of the set)
+                using SetT = typename Comp::type;
+                auto s = acc(v);
+                const auto raw = *s;
+                SetT::each(s, [&](int bit, auto named_get, auto, auto ctag) {
+                    using CTag = typename decltype(ctag)::type;
+                    auto push = [&](u64 bits) {
+                        Event ev;
+                        ev.kind = EV_SET_CHOICE;
+                        ev.tag = bit;
+                        ev.has_bits = true;
+                        ev.bits = bits;
+                        cx.rs->events.push_back(ev);
+                    };
+                    push(named_get() ? 1 : 0);
+                    push(sbepp::get_by_tag<CTag>(s) ? 1 : 0);
+                });
+                SetT::each(s, [&](int bit, auto, auto, auto ctag) {
+                    using CTag = typename decltype(ctag)::type;
+                    (void)bit;
+                    auto t1 = acc(v);
+                    SetT::each(t1, [&](int b2, auto g2, auto set2, auto) {
+                        if(b2 == bit) set2(!g2());
+                    });
+                    auto t2 = acc(v);
+                    sbepp::set_by_tag<CTag>(t2, !sbepp::get_by_tag<CTag>(t2));
+                    Event ev;
+                    ev.kind = EV_SET_CHOICE;
+                    ev.tag = bit;
+                    ev.has_bits = true;
+                    ev.bits = to_bits(*t1);
+                    cx.rs->events.push_back(ev);
+                    ev.bits = to_bits(*t2);
+                    cx.rs->events.push_back(ev);
+                });
+                rs.has_bits = true;
+                rs.bits = to_bits(raw);
+            }
+            else
+                rs.unsupported = true;
+            break;
         case GET:
             rs.has_bits = true;
             rs.bits = value_bits(k, acc(v));
